@@ -4,7 +4,7 @@ import random
 from math import ceil
 
 from core import proto
-from .common import case, guarded, ordinal_instance, weak_orders, rand_weak_order
+from .common import case, guarded, ordinal_instance, weak_orders, rand_weak_order, snapshot, snap_diff
 
 ID = "C17"
 COVER_FILES = ['instances/preflibinstance/categorical.py']
@@ -13,7 +13,7 @@ RULE = ("exhaustive: every source made of 1-2 distinct weak (possibly incomplete
         "relative truncator lists; the parameter-combination guards; random: weak incomplete instances (m <= 7, "
         "n <= 6) whose orders share flattened sequences and differ in their tie structure, with coarse truncation, "
         "so that different orders collapse to one ballot; factorise_instance on random raw ballot lists with "
-        "repetitions. non-trivial = at least two source orders collapse to one ballot (from_ordinal) / the raw list "
+        "repetitions; histories on one object / two objects alive at once (see ASSUMPTIONS). non-trivial = at least two source orders collapse to one ballot (from_ordinal) / the raw list "
         "contains a repeated ballot (factorise_instance)")
 EXHAUSTIVE = {
     "quick": "sources of 1-2 distinct orders (all 25 non-empty weak orders over subsets of {1,2,3}; multiplicities "
@@ -35,6 +35,14 @@ TRUSTED = [
     "claims no category sizes for relative truncators",
 ]
 ASSUMPTIONS = [
+    "history cases (c17.fo_hist / c17.two_alive / c17.fact_hist): the source instance and the argument lists of "
+    "from_ordinal are inputs only (semantic snapshot before/after, same argument objects used for a second call); "
+    "results are independent objects (modifying one conversion changes neither the source, nor an earlier "
+    "conversion, nor a fresh CategoricalInstance()); numpy.int64 multiplicities / truncators and numpy.float64 "
+    "relative truncators are accepted like equal Python numbers; storage order of orders / multiplicity / "
+    "alternatives_name is not an input; maintenance calls on the source (recompute_cardinality_param, flatten_strict, "
+    "vote_map, full_profile, infer_type) and the modification of their results do not change a later conversion; in "
+    "factorise histories every factorisation is judged by the model on the state the instance had just before it",
     "category_name (documented, never read by the current code) is None or a list of str of any length; it is passed "
     "in about 20 % of the from_ordinal cases; the model ignores it (fo_category_name_ignored) and the names "
     "themselves are not compared (the property does not name them), only len(categories_name) = num_categories. "
@@ -183,7 +191,7 @@ def random_ballot(rng, alts):
     return cats
 
 
-def generate(tier, seed):
+def _generate2(tier, seed):
     out = _generate(tier, seed)
     # category_name (documented, currently ignored) on ~20 % of the from_ordinal cases, all variants, all modes
     res, k = [], 0
@@ -319,7 +327,7 @@ def _is_tuple2(b):
     return isinstance(b, tuple) and all(isinstance(c, tuple) and all(isinstance(a, int) for a in c) for c in b)
 
 
-def impl(c):
+def _impl_basic(c):
     from preflibtools.instances import CategoricalInstance
     op, pl = c["op"], c["payload"]
     if op == "c17.factorise":
@@ -384,7 +392,7 @@ def _cmp_tables(prefs_i, mult_i, prefs_m, mult_m):
     return None
 
 
-def oracle_requests(c, r):
+def _reqs_basic(c, r):
     """relative mode: additionally ask the verified checker (conv_check_correct) about the implementation's own
     result, so that category SIZES other than the model's (the property claims none in this mode) do not alarm"""
     reqs = [(c["op"], c["payload"])]
@@ -454,7 +462,7 @@ def _padding_direct(ri):
     return None
 
 
-def judge(c, r, mres):
+def _judge_basic(c, r, mres):
     both_ok = (c["op"] == "c17.from_ordinal" and mres[0][0] == 0 and isinstance(r, list) and r[0] == 0)
     if both_ok:
         bad = _padding_direct(r[1])
@@ -523,7 +531,7 @@ def _collapsed(c, m):
     return m[0] == 0 and len(m[1][0]) < len(c["payload"][2])
 
 
-def nontrivial(c, r, mres):
+def _nontrivial_basic(c, r, mres):
     m = mres[0]
     if c["op"] == "c17.factorise":
         bs = [tup2(b) for b in c["payload"][1]]
@@ -554,7 +562,7 @@ def _overshoot(o, ts):
     return False
 
 
-def stats(c, r, mres):
+def _stats_basic(c, r, mres):
     m = mres[0]
     if c["op"] == "c17.factorise":
         bs = [tup2(b) for b in c["payload"][1]]
@@ -598,7 +606,7 @@ def stats(c, r, mres):
     return lab
 
 
-def describe(c):
+def _describe_basic(c):
     pl = c["payload"]
     if c["op"] == "c17.factorise":
         return {"op": c["op"], "reset_multiplicity": bool(pl[0]), "preferences": pl[1], "multiplicity_before": pl[2]}
@@ -611,7 +619,7 @@ def describe(c):
             "category_name": ([proto.untext(t) for t in pl[6][0]] if len(pl) > 6 and pl[6] else None)}
 
 
-def shrink(c):
+def _shrink_basic(c):
     pl = c["payload"]
     if c["op"] == "c17.factorise":
         reset, bs, mult = pl
@@ -643,3 +651,415 @@ def shrink(c):
                 q = list(pl)
                 q[which] = [p[0][:i] + p[0][i + 1:]]
                 yield dict(c, payload=q)
+
+
+# =========================================================================================================
+# Round-5 lessons: purity, aliasing, object lifetime, storage order, foreign number types, maintenance API.
+# Three history ops; every single answer inside a history is judged by the extracted model through the
+# ordinary ops (c17.from_ordinal / c17.conv_check / c17.factorise), the rest are before/after comparisons.
+#   c17.fo_hist    one source, from_ordinal called TWICE with the same argument objects; source snapshot and
+#                  argument lists compared before/after; first result poisoned before the second call
+#   c17.two_alive  A = from_ordinal(src1, ...), B = from_ordinal(src2, ...), B poisoned, A re-read
+#   c17.fact_hist  factorise / append raw ballots / recompute / factorise again on ONE instance, another
+#                  instance factorised in between
+# =========================================================================================================
+HIST_OPS = ("c17.fo_hist", "c17.two_alive", "c17.fact_hist")
+
+
+def _source_and_kwargs(pl, tags):
+    """tags: decouple (storage order of orders / multiplicity / alternatives_name decoupled), np (numpy number
+    types), maint (maintenance API of the source called, and its results poisoned, before converting)"""
+    import warnings
+    num_alts, names, src, nic, st, rst = pl[:6]
+    cn = pl[6] if len(pl) > 6 else []
+    inst = ordinal_instance([(o, m) for o, m in src], alts=[a for a, _ in names])
+    names = list(names)
+    if tags.get("decouple"):
+        names = names[1:][::-1] + names[:1]
+    inst.alternatives_name = {a: proto.untext(t) for a, t in names}
+    inst.num_alternatives = num_alts
+    if tags.get("np"):
+        import numpy as np
+        for k in list(inst.multiplicity):
+            inst.multiplicity[k] = np.int64(inst.multiplicity[k])
+        inst.num_voters = sum(inst.multiplicity.values())
+    if tags.get("decouple") and inst.orders:
+        inst.orders.reverse()
+        k0 = next(iter(inst.multiplicity))          # multiplicity key order != orders list order != payload order
+        inst.multiplicity[k0] = inst.multiplicity.pop(k0)
+    if tags.get("maint"):
+        with warnings.catch_warnings():
+            warnings.simplefilter("ignore")
+            inst.recompute_cardinality_param()
+            fs = inst.flatten_strict()
+            vm = inst.vote_map()
+            fp = inst.full_profile()
+            inst.infer_type()
+        fs.clear()
+        vm.clear()
+        fp.clear()
+    kw = {}
+    if tags.get("np"):
+        import numpy as np
+        conv_i = lambda l: [np.int64(x) for x in l]
+        conv_f = lambda l: [np.float64(x) for x in l]
+    else:
+        conv_i = conv_f = list
+    if nic:
+        kw["num_indif_classes"] = conv_i(nic[0])
+    if st:
+        kw["size_truncators"] = conv_i(st[0])
+    if rst:
+        kw["relative_size_truncators"] = conv_f(tags["rel"])
+    if cn:
+        kw["category_name"] = [proto.untext(t) for t in cn[0]]
+    return inst, kw
+
+
+def _canon_ci(ci):
+    if not all(_is_tuple2(b) for b in ci.preferences) or not all(_is_tuple2(b) for b in ci.multiplicity):
+        raise AssertionError("ballots are not tuples of tuples of ints")
+    return [[list(map(list, b)) for b in ci.preferences],
+            [[list(map(list, b)), int(m)] for b, m in ci.multiplicity.items()],
+            int(ci.num_voters), int(ci.num_unique_preferences), int(ci.num_categories), len(ci.categories_name),
+            int(ci.num_alternatives), [[a, proto.text(n)] for a, n in ci.alternatives_name.items()]]
+
+
+def _poison_ci(ci):
+    ci.preferences.append(((424242,),))
+    ci.multiplicity[((424242,),)] = 99
+    for k in list(ci.multiplicity)[:1]:
+        ci.multiplicity[k] += 1000
+    ci.alternatives_name[424242] = "poison"
+    for k in list(ci.alternatives_name)[:1]:
+        ci.alternatives_name[k] = "poisoned name"
+    ci.categories_name["poison"] = "poison"
+    ci.num_categories += 7
+
+
+def _args_state(kw):
+    return [(k, [(type(x).__name__, x) for x in v] if isinstance(v, list) else v) for k, v in sorted(kw.items())]
+
+
+def _impl_fo_hist(c):
+    from preflibtools.instances import CategoricalInstance
+    inst, kw = _source_and_kwargs(c["payload"], c["tags"])
+    before, args_before = snapshot(inst), _args_state(kw)
+    purity = []
+    keep = []
+
+    def run():
+        ci = CategoricalInstance.from_ordinal(inst, **kw)
+        keep.append(ci)
+        return _canon_ci(ci)
+    res = []
+    for turn in (1, 2):
+        res.append(guarded(run))
+        d = snap_diff(before, snapshot(inst))
+        if d:
+            purity.append("call %d of from_ordinal changed the SOURCE instance: %s" % (turn, d))
+        if _args_state(kw) != args_before:
+            purity.append("call %d of from_ordinal changed its argument lists: %r -> %r" % (turn, args_before, _args_state(kw)))
+        if keep:
+            _poison_ci(keep[-1])
+            d = snap_diff(before, snapshot(inst))
+            if d:
+                purity.append("modifying the result of call %d changed the SOURCE instance (shared object): %s" % (turn, d))
+    if c["tags"].get("np"):
+        # the same call with plain Python ints / floats: the number TYPE of counts and truncators is not an input
+        inst0, kw0 = _source_and_kwargs(c["payload"], dict(c["tags"], np=0))
+        r0 = guarded(lambda: _canon_ci(CategoricalInstance.from_ordinal(inst0, **kw0)))
+
+        def key(r):
+            if r[0] != 0:
+                return r[:2]
+            v = r[1]
+            return [sorted(map(repr, v[0])), sorted(map(repr, v[1])), v[2:7], sorted(map(repr, v[7]))]
+        if key(r0) != key(res[0]):
+            purity.append("numpy.int64 / numpy.float64 arguments give a different result than equal Python numbers: "
+                          "%r vs %r" % (res[0], r0))
+    return [res[0], res[1], proto.text(" | ".join(purity)[:900])]
+
+
+def _impl_two_alive(c):
+    from preflibtools.instances import CategoricalInstance
+    plA, plB = c["payload"]
+    ta = dict(c["tags"], rel=c["tags"].get("relA"))
+    tb = dict(c["tags"], rel=c["tags"].get("relB"))
+    instA, kwA = _source_and_kwargs(plA, ta)
+    instB, kwB = _source_and_kwargs(plB, tb)
+    box = {}
+
+    def runA():
+        box["A"] = CategoricalInstance.from_ordinal(instA, **kwA)
+        return _canon_ci(box["A"])
+
+    def runB():
+        box["B"] = CategoricalInstance.from_ordinal(instB, **kwB)
+        return _canon_ci(box["B"])
+    a1 = guarded(runA)
+    b1 = guarded(runB)
+    a2 = guarded(lambda: _canon_ci(box["A"])) if "A" in box else a1
+    if "B" in box:
+        _poison_ci(box["B"])
+    a3 = guarded(lambda: _canon_ci(box["A"])) if "A" in box else a1
+    fresh = CategoricalInstance()
+    leak = []
+    if fresh.preferences or fresh.multiplicity or fresh.categories_name or fresh.alternatives_name:
+        leak = proto.text("a fresh CategoricalInstance() is not empty after the conversions: %r %r %r" % (
+            fresh.preferences, fresh.categories_name, fresh.alternatives_name))
+    return [a1, b1, a2, a3, leak]
+
+
+def _canon_fact(inst):
+    if not all(_is_tuple2(b) for b in inst.preferences) or not all(_is_tuple2(b) for b in inst.multiplicity):
+        raise AssertionError("ballots are no longer tuples of tuples of ints")
+    return [[list(map(list, b)) for b in inst.preferences],
+            [[list(map(list, b)), int(m)] for b, m in inst.multiplicity.items()]]
+
+
+def _impl_fact_hist(c):
+    from preflibtools.instances import CategoricalInstance
+    raw, steps, other = c["payload"]
+    inst = CategoricalInstance()
+    handed = [tup2(b) for b in raw]
+    inst.preferences = handed
+    records, purity = [], []
+    for kind, arg in steps:
+        if kind == 0:                       # factorise_instance(reset_multiplicity=arg), then recompute
+            before = _canon_fact(inst)
+            handed = inst.preferences
+            handed_copy = list(handed)
+            if arg:
+                inst.factorise_instance(reset_multiplicity=True)
+            else:
+                inst.factorise_instance()
+            if handed != handed_copy:
+                purity.append("factorise_instance modified the list object it was given in place")
+            after = _canon_fact(inst)
+            if inst.preferences is not handed:
+                handed.append(((424242,),))     # poison the old list object: the instance must not see it
+                handed.reverse()
+                if _canon_fact(inst) != after:
+                    purity.append("the instance still shares the ballot list object it was given")
+            inst.recompute_cardinality_param()
+            records.append([int(bool(arg)), before[0], before[1],
+                            after + [int(inst.num_voters), int(inst.num_unique_preferences)]])
+        elif kind == 1:                     # raw ballots appended by the user
+            for b in arg:
+                inst.preferences.append(tup2(b))
+        elif kind == 2:
+            inst.recompute_cardinality_param()
+        elif kind == 3:                     # another instance built and factorised in between
+            state = _canon_fact(inst)
+            o = CategoricalInstance()
+            o.preferences = [tup2(b) for b in other]
+            o.factorise_instance(reset_multiplicity=bool(arg))
+            o.multiplicity[((424242,),)] = 5
+            o.preferences.append(((424242,),))
+            if _canon_fact(inst) != state:
+                purity.append("factorising ANOTHER instance changed this one: %r -> %r" % (state, _canon_fact(inst)))
+    return [records, proto.text(" | ".join(purity)[:600])]
+
+
+def impl(c):
+    op = c["op"]
+    if op == "c17.fo_hist":
+        return _impl_fo_hist(c)
+    if op == "c17.two_alive":
+        return _impl_two_alive(c)
+    if op == "c17.fact_hist":
+        try:
+            return _impl_fact_hist(c)
+        except Exception as e:  # noqa
+            return {"crash": "%s: %s" % (type(e).__name__, str(e)[:200])}
+    return _impl_basic(c)
+
+
+def _fo_pseudo(c, pl, rel):
+    tags = dict(c["tags"])
+    if rel is not None:
+        tags["rel"] = rel
+    return {"op": "c17.from_ordinal", "payload": pl, "tags": tags}
+
+
+def _hist_parts(c, r):
+    """[(pseudo case, implementation result)] for the from_ordinal answers inside a history"""
+    if c["op"] == "c17.fo_hist":
+        pc = _fo_pseudo(c, c["payload"], c["tags"].get("rel"))
+        return [(pc, r[0]), (pc, r[1])]
+    pa = _fo_pseudo(c, c["payload"][0], c["tags"].get("relA"))
+    pb = _fo_pseudo(c, c["payload"][1], c["tags"].get("relB"))
+    return [(pa, r[0]), (pb, r[1])]
+
+
+def oracle_requests(c, r):
+    if c["op"] == "c17.fact_hist":
+        if not isinstance(r, list):
+            return [("c17.factorise", [1, [], []])]
+        return [("c17.factorise", [rec[0], rec[1], rec[2]]) for rec in r[0]] or [("c17.factorise", [1, [], []])]
+    if c["op"] in HIST_OPS:
+        if not isinstance(r, list):
+            return [("c17.from_ordinal", c["payload"] if c["op"] == "c17.fo_hist" else c["payload"][0])]
+        reqs = []
+        for pc, ri in _hist_parts(c, r):
+            reqs.extend(_reqs_basic(pc, ri))
+        return reqs
+    return _reqs_basic(c, r)
+
+
+def judge(c, r, mres):
+    op = c["op"]
+    if op == "c17.fact_hist":
+        for k, rec in enumerate(r[0]):
+            bad = _judge({"op": "c17.factorise", "payload": rec[:3], "tags": {}}, rec[3], [mres[k]])
+            if bad:
+                return dict(bad, reason="factorisation %d of the history (state before it: %r): %s" % (k + 1, rec[1:3], bad["reason"]))
+        if r[1]:
+            return {"kind": "mismatch", "theorem": "factorise_correct", "reason": proto.untext(r[1])}
+        return None
+    if op in HIST_OPS:
+        i = 0
+        for k, (pc, ri) in enumerate(_hist_parts(c, r)):
+            n = len(_reqs_basic(pc, ri))
+            bad = _judge_basic(pc, ri, mres[i:i + n])
+            i += n
+            if bad:
+                return dict(bad, reason="answer %d of the history: %s" % (k + 1, bad["reason"]))
+        if op == "c17.fo_hist":
+            if r[2]:
+                return {"kind": "mismatch", "theorem": "fo_conserve (source and arguments are inputs only)",
+                        "reason": proto.untext(r[2])}
+            return None
+        if r[2] != r[0]:
+            return {"kind": "mismatch", "theorem": "fo_conserve",
+                    "reason": "the first conversion changed when a second one was made: %r -> %r" % (r[0], r[2])}
+        if r[3] != r[0]:
+            return {"kind": "mismatch", "theorem": "fo_conserve",
+                    "reason": "the first conversion changed when the second one was modified: %r -> %r" % (r[0], r[3])}
+        if r[4]:
+            return {"kind": "mismatch", "theorem": "fo_conserve", "reason": proto.untext(r[4])}
+        return None
+    return _judge_basic(c, r, mres)
+
+
+def nontrivial(c, r, mres):
+    if c["op"] == "c17.fact_hist":
+        return len(r[0]) >= 2
+    if c["op"] in HIST_OPS:
+        return mres[0][0] == 0
+    return _nontrivial_basic(c, r, mres)
+
+
+def stats(c, r, mres):
+    op = c["op"]
+    if op == "c17.fact_hist":
+        return ["fact_hist factorisations=%d%s" % (len(r[0]), " other-instance" if any(k == 3 for k, _ in c["payload"][1]) else "")]
+    if op == "c17.fo_hist":
+        t = c["tags"]
+        pc = _fo_pseudo(c, c["payload"], t.get("rel"))
+        lab = ["fo_hist %s decouple=%d np=%d maint=%d" % (_mode(pc), t.get("decouple", 0), t.get("np", 0), t.get("maint", 0)),
+               "fo_hist %s" % ("refused" if mres[0][0] == 1 else ("collapse" if _collapsed(pc, mres[0]) else "no-collapse"))]
+        return lab
+    if op == "c17.two_alive":
+        ms = [m for m in mres if isinstance(m, list) and len(m) == 2 and m[0] in (0, 1) and isinstance(m[1], (list, int))]
+        oks = [m for m in mres if isinstance(m, list) and m and m[0] == 0 and isinstance(m[1], list) and len(m[1]) > 4]
+        if len(oks) >= 2:
+            return ["two_alive num_categories %s" % ("differ" if oks[0][1][4] != oks[1][1][4] else "equal")]
+        return ["two_alive one call refused"]
+    return _stats_basic(c, r, mres)
+
+
+def describe(c):
+    op = c["op"]
+    if op == "c17.fact_hist":
+        return {"op": op, "raw ballots": c["payload"][0],
+                "steps (0 factorise(reset) / 1 append ballots / 2 recompute / 3 factorise another instance)": c["payload"][1],
+                "other instance": c["payload"][2]}
+    if op == "c17.fo_hist":
+        return dict(_describe_basic(_fo_pseudo(c, c["payload"], c["tags"].get("rel"))), op=op, history=
+                    "from_ordinal called twice with the same argument objects; source snapshot before/after; first "
+                    "result modified before the second call", flags={k: c["tags"].get(k, 0) for k in ("decouple", "np", "maint")})
+    if op == "c17.two_alive":
+        return {"op": op, "A": _describe_basic(_fo_pseudo(c, c["payload"][0], c["tags"].get("relA"))),
+                "B": _describe_basic(_fo_pseudo(c, c["payload"][1], c["tags"].get("relB")))}
+    return _describe_basic(c)
+
+
+def shrink(c):
+    op = c["op"]
+    if op == "c17.fo_hist":
+        for k in ("decouple", "np", "maint"):
+            if c["tags"].get(k):
+                yield dict(c, tags=dict(c["tags"], **{k: 0}))
+        for c2 in _shrink_basic(_fo_pseudo(c, c["payload"], c["tags"].get("rel"))):
+            yield dict(c, payload=c2["payload"])
+        return
+    if op == "c17.fact_hist":
+        raw, steps, other = c["payload"]
+        for i in range(len(steps)):
+            if not (steps[i][0] == 0 and i == 0):
+                yield dict(c, payload=[raw, steps[:i] + steps[i + 1:], other])
+        for i in range(len(raw)):
+            yield dict(c, payload=[raw[:i] + raw[i + 1:], steps, other])
+        return
+    if op == "c17.two_alive":
+        return
+    for x in _shrink_basic(c):
+        yield x
+
+
+def generate(tier, seed):
+    base = _generate2(tier, seed)
+    quick = tier == "quick"
+    rng = random.Random(1000003 * seed + 5005)
+    fo = [c for c in base if c["op"] == "c17.from_ordinal"]
+    out = list(base)
+    # ---- fo_hist: per mode, collapse-prone random cases and exhaustive small cases, all guards; flags cycling --
+    def mode_of(c):
+        pl = c["payload"]
+        return 0 if pl[3] else (1 if pl[4] else 2)
+    sample = [c for c in fo if c["tags"].get("guard")]
+    for mde in range(3):
+        for tag, n in (("rnd", 260 if quick else 2500), ("exh", 260 if quick else 2500)):
+            cand = [c for c in fo if not c["tags"].get("guard") and c["tags"].get(tag) and mode_of(c) == mde]
+            sample.extend(rng.sample(cand, min(n, len(cand))))
+    for i, c in enumerate(sample):
+        flags = {"decouple": i & 1, "np": (i >> 1) & 1, "maint": (i >> 2) & 1}
+        out.append({"op": "c17.fo_hist", "payload": c["payload"], "tags": dict(c["tags"], **flags)})
+    # ---- two_alive: pairs over the same alternatives with (mostly) different numbers of categories ----------
+    pool = [c for c in rng.sample(fo, min(len(fo), 6000)) if not c["tags"].get("guard")]
+    guards = [c for c in fo if c["tags"].get("guard")]
+    for i in range(1200 if quick else 8000):
+        a, b = rng.choice(pool), rng.choice(pool)
+        if i % 25 == 0:
+            a = rng.choice(guards)           # the first call is refused, the second must not notice
+        tags = {"relA": a["tags"].get("rel"), "relB": b["tags"].get("rel"), "decouple": i & 1, "np": (i >> 1) & 1,
+                "maint": 0}
+        out.append({"op": "c17.two_alive", "payload": [a["payload"], b["payload"]], "tags": tags})
+    # ---- fact_hist ------------------------------------------------------------------------------------------
+    pool3 = [[[1], [2]], [[1, 2], []], [[1, 2]], [[2], [1]]]
+    for i in range(500 if quick else 4000):
+        alts = rng.sample(range(1, 30), rng.randint(1, 4))
+        distinct = [b for b in pool3] if i % 3 == 0 else []
+        while len(distinct) < rng.randint(2, 4):
+            b = random_ballot(rng, alts)
+            if b not in distinct:
+                distinct.append(b)
+        raw = [rng.choice(distinct) for _ in range(rng.randint(1, 8))]
+        other = [rng.choice(distinct) for _ in range(rng.randint(1, 5))]
+        steps = [[0, rng.randint(0, 1)]]        # reset=False only on the empty table of a fresh instance
+        for _ in range(rng.randint(1, 4)):
+            k = rng.choice([0, 0, 1, 1, 2, 3])
+            if k == 0:
+                steps.append([0, 1])
+            elif k == 1:
+                steps.append([1, [rng.choice(distinct) for _ in range(rng.randint(1, 4))]])
+            elif k == 2:
+                steps.append([2, 0])
+            else:
+                steps.append([3, rng.randint(0, 1)])
+        if steps[-1][0] != 0:
+            steps.append([0, 1])
+        out.append(case("c17.fact_hist", [raw, steps, other], rnd=1))
+    return out
